@@ -494,6 +494,36 @@ def run(tier):
         v.violation("c20:cross-sweep-crash", "basic/extended cross sweep died", cr)
     for k, n in rr.counters.items():
         counters["cross." + k] = counters.get("cross." + k, 0) + n
+    # the same clause on the hand-written sources, whose zones carry notes from several passes: zones emitted in both scopes
+    # and truncation-noted in neither are asked through the Python ZoneSpecifier on both scopes' tables, every 3 d 5 h
+    from zonedb.zone_specifier import ZoneSpecifier
+    for other in ("features", "unsupported"):
+        try:
+            cb = tzpipe.compile_source(indirs[other], "basic", 2000, 2050)
+            cx = tzpipe.compile_source(indirs[other], "extended", 2000, 2050)
+        except tzpipe.CompilerDied:
+            continue        # reported above
+        both = [z for z in sorted(set(cb.zone_infos) & set(cx.zone_infos))
+                if not c03lib.truncation_noted(cb.tzdb, z) and not c03lib.truncation_noted(cx.tzdb, z)]
+        counters["py_cross_zones"] = counters.get("py_cross_zones", 0) + len(both)
+        counters["py_cross_zones_excepted_for_a_truncation_note"] = counters.get("py_cross_zones_excepted_for_a_truncation_note", 0) + \
+            len(set(cb.zone_infos) & set(cx.zone_infos)) - len(both)
+        for z in both:
+            zb, zx = ZoneSpecifier(cb.zone_infos[z]), ZoneSpecifier(cx.zone_infos[z])
+            for t in range(86400 * 3, 1577923200 - 86400 * 3, 86400 * 3 + 3600 * 5):
+                counters["py_cross_probes"] = counters.get("py_cross_probes", 0) + 1
+                try:
+                    a_, b_ = tuple(zb.get_timezone_info_for_seconds(t)), tuple(zx.get_timezone_info_for_seconds(t))
+                except Exception as e:  # noqa
+                    v.violation("c20:basic-extended-disagree", "a zone emitted in both scopes cannot be asked in one of them", {"program": other, "zone": z, "epochSeconds": t, "error": repr(e)[:200]})
+                    break
+                if a_ != b_:
+                    v.violation("c20:basic-extended-disagree", "a zone emitted in both scopes without a truncation note answers differently in the two scopes",
+                                {"program": other, "zone": z, "epochSeconds": t, "basic": list(a_), "extended": list(b_),
+                                 "notes_basic": sorted(cb.tzdb["notable_zones"].get(z, [])), "notes_extended": sorted(cx.tzdb["notable_zones"].get(z, []))})
+                    break
+    if counters.get("py_cross_zones", 0) < 6 or counters.get("py_cross_zones_excepted_for_a_truncation_note", 0) < 1:
+        v.inconclusive_because("the scope comparison on the hand-written sources did not run: %r" % {k: n for k, n in counters.items() if k.startswith("py_cross")})
     # ------------------------------------------------------------------ F: the checked-in python database
     zones, rules = reconstruct_py(REPO / "tools" / "zonedbpy")
     names = sorted(zones)
